@@ -7,6 +7,7 @@ import (
 	"crypto/sha256"
 	"encoding/binary"
 	"encoding/hex"
+	"encoding/json"
 	"fmt"
 	"sort"
 	"strconv"
@@ -346,6 +347,9 @@ func (b *Board) NewHandle() *Handle {
 	return &Handle{b: b, horizon: -1, idIgnore: map[string]struct{}{}, offIgnore: map[uint64]struct{}{}}
 }
 
+// MaxBoardLine mirrors storage/file_storage maxLineSize (id and offset are assigned on append: 64 bytes of slack).
+const MaxBoardLine = 1024 * 1024
+
 func (h *Handle) Send(msgs ...storage.Message) error {
 	for i, m := range msgs {
 		if h.b.Hook != nil {
@@ -353,6 +357,11 @@ func (h *Handle) Send(msgs ...storage.Message) error {
 		}
 		if h.Hook != nil {
 			h.Hook("send", "pre")
+		}
+		// the board substitutes have the line limit of the file board (1 MiB, newline included):
+		// boards are finite, the Kafka one too
+		if bz, err := json.Marshal(m); err == nil && len(bz)+64 > MaxBoardLine {
+			return fmt.Errorf("message is too long for the board: about %d bytes, at most %d", len(bz)+64, MaxBoardLine)
 		}
 		msgs[i] = h.b.appendMsg(m)
 		h.Sent++
